@@ -303,6 +303,11 @@ def in_claim(m):
     reading fixed with the coordinator — no variable bound by two quantifiers"""
     if not mrs.is_well_formed(m):
         return False
+    # variables of the sort '_' (e.g. ARG0 '_1') are the identifier space make_ids_unique /
+    # _uniquify_ids reserve for themselves: outside the input space (coordinator's decision)
+    for v in m.variables:
+        if variable.type(v) == "_":
+            return False
     bound = [ep.iv for ep in m.rels if ep.is_quantifier()]
     return len(set(bound)) == len(bound)
 
@@ -430,8 +435,10 @@ class C05(Check):
         "input space of the claim = mrs.is_well_formed(m) (connected, scope-plausible, intrinsic-variable property) AND no "
         "variable bound by two quantifiers (reading fixed with the coordinator: the clause 'a quantifier has exactly one "
         "bound-variable edge' presupposes at most one quantifier per variable; is_well_formed does not test it)",
-        "variable strings are (sort, canonical decimal id); sorts are ASCII; no variable of the reserved sorts '_' / 'q' in "
-        "the generated well-formed stream (the theorems carry this as the hypothesis NoReserved)",
+        "variable strings are (sort, canonical decimal id); sorts are ASCII; variables of the sort '_' (e.g. ARG0 '_1', the "
+        "identifier space make_ids_unique reserves for itself) are OUTSIDE the input space (coordinator's decision; on "
+        "such input the real code can give duplicate node ids, see corpus/C05/known.json) and the generated "
+        "well-formed stream has no ARG0 of sort 'q' either (the theorems carry both as the hypothesis NoReserved)",
         "EP ids pairwise distinct (true unless an ARG0 has the sort '_'): otherwise the driver answers 'unmodelled'",
         "make_ids_unique iterates a Python set when several non-quantifier EPs share an ARG0 (ill-formed input): the "
         "driver answers 'unmodelled' when that order is observable",
